@@ -60,21 +60,40 @@ AddVs 6
 @QHOV 0
 @QVOH 0 1
 @QTVI 0 1""",
+    # every valence guard from below and from above (accepted only at exactly 3 halfedges / vertices, 4 halffaces on
+    # triangles), unchecked and checked, then the valid ones
     "tet-rejected-adds": """Mesh tet
-AddVs 5
+AddVs 6
+@AddE 0 1 0
+@AddE 1 2 0
+@AddE 2 3 0
+@AddE 3 0 0
+@AddE 2 0 0
+@AddF 0 0 2
+@AddF 0 0 2 4 6
+@AddF 1 0 2 4 6
+@AddF 0 0 2 4 6 0
+@AddF 1 0 2 8
 @AddFV 0 1
 @AddFV 0 1 2 3
-@AddF 0 0 2
+@AddFV 0 1 2 3 4
 @AddFV 0 1 2
 @AddFV 0 2 3
 @AddFV 0 3 1
-@AddC 0 0 2 4
-@AddC 1 0 2 4 1
+@AddFV 1 3 2
+@AddC 0 2 4 6
+@AddC 0 2 4 6 8 3
+@AddC 1 2 4 6 8 3
+@AddC 1 2 4 6
 @TAddCellV 1 0 1 2
 @TAddCellV 1 0 1 2 3 4
+@TAddCellV 0 0 1 2 3 4
+@SetF 0 0 2 4 6
+@AddC 0 0 4 6 8
+@AddC 1 2 4 6 8
 @TAddCellV 1 0 1 2 3
-@TAddCellV 1 0 1 2 3
-QTetAll""",
+QTetAll
+""",
     # an interior vertex 0 inside the tetrahedron 1 2 3 4, collapsed onto the LAST vertex (the handle that the
     # immediate fast mode moves) and onto a middle one, in all four deletion modes, with property arrays on every kind
     "tet-collapse-modes": "\n".join(["Mesh tet"] + sum([[
@@ -119,14 +138,29 @@ AddVs 12
 @AddFV 8 9 10 11
 @AddC 1 5 7 9 11 3 12""",
     "hex-rejected-adds": """Mesh hex
-AddVs 9
+AddVs 10
+@AddE 0 1 0
+@AddE 1 2 0
+@AddE 2 3 0
+@AddE 3 0 0
+@AddE 3 4 0
+@AddE 4 0 0
+@AddF 0 0 2 4
+@AddF 0 0 2 4 8 10
+@AddF 1 0 2 4 8 10
+@AddF 1 0 2 4 6
 @AddFV 0 1 2
 @AddFV 0 1 2 3 4
-@AddFV 0 1 2 3
-@AddF 1 0 2 4
+@AddFV 5 6 7 8
+@AddC 0 0 1 0 1 0
 @AddC 1 0 1 0 1 0
-@AddC 1 0 1 0 1 0 1
+@AddC 0 0 1 0 1 0 1 0
+@AddC 1 0 1 0 1 0 1 0
+@SetF 1 0 2 4
+@AddC 0 0 1 2 3 0 1
+@AddC 1 0 1 2 3 0 1
 @HAddCellV 1 0 1 2 3 4 5 6
+@HAddCellV 0 0 1 2 3 4 5 6 7 8
 @HAddCellV 1 0 1 2 3 4 7 6 5
 @HAddCellV 1 0 1 2 3 4 7 6 5
 QHexAll""",
